@@ -919,7 +919,7 @@ def case_script(case):
 
 
 def campaign(ctx):
-    n = {"quick": 66, "thorough": 1000}[ctx.tier]
+    n = {"quick": 180, "thorough": 1000}[ctx.tier]
     runner.run_hypothesis(ctx, case_strategy(ctx.tier), runner.guarded(run_case), n)
     if ctx.widx == 0:
         runner.run_hypothesis(ctx, big_strategy(ctx.tier), runner.guarded(run_case), {"quick": 2, "thorough": 6}[ctx.tier], label="big")
